@@ -335,6 +335,16 @@ func c07Replay(v *Violation) string {
 		x.exec(zeroChooser{}, false)
 		canon := x.out
 		x.exec(&prefixChooser{p: cs.Choices}, false)
+		if x.out.Deadlock || x.out.Livelock || x.out.Panic != "" {
+			return "FAIL " + x.out.String()
+		}
+		_, verdict := ref.Parse(doc.text)
+		if doc.nd {
+			_, verdict = ref.ParseND(doc.text)
+		}
+		if (verdict == ref.Valid && x.out.Err != "") || (verdict == ref.Invalid && x.out.Err == "") {
+			return fmt.Sprintf("FAIL content is %v but the schedule gives %s", verdict, x.out)
+		}
 		if x.out != canon {
 			return fmt.Sprintf("FAIL schedule gives %s, default schedule gives %s", x.out, canon)
 		}
